@@ -238,7 +238,10 @@ def eval_region(expr: str, named: dict, ob=None):
     env = dict(ob or {})
     env.update(named)
     env.update(REGION_FUNCS)
-    return eval(expr, {"__builtins__": {}}, env)
+    try:
+        return eval(expr, {"__builtins__": {}}, env)
+    except NameError:
+        return False  # the path has no such input: it lies outside the region
 
 
 def eval_region_concrete(expr: str, inputs: dict, ob=None) -> bool:
